@@ -112,6 +112,14 @@ def instr? (t : String) : Option Instr :=
   | ["idx", a, i] => do pure (.idx (← reg? a) (← i.toInt?))
   | ["genter", c] => (reg? c).map .genter
   | ["gleave"] => some .gleave
+  -- a selection whose branches are functions, `if_then_else(c, f, g)`, is `guarded(c)(f)()`, `guarded(~c)(g)()` and the selection
+  -- between the two results (branching.py): the harness writes it instruction by instruction as
+  -- `fthen c; <f>; fmid; un invert c; felse ~c; <g>; fleave; fsel c t e` (either region may be missing: that branch is a value)
+  | ["fthen", c] => (reg? c).map .genter
+  | ["fmid"] => some .gleave
+  | ["felse", c] => (reg? c).map .genter
+  | ["fleave"] => some .gleave
+  | ["fsel", c, a, b] => do pure (.ite (← reg? c) (← reg? a) (← reg? b))
   | ["set", "bl", n] => n.toNat?.map .setBl
   | ["set", "res", n] => n.toNat?.map .setRes
   | ["set", "ign", n] => n.toNat?.map (fun k => .setIgn (k != 0))
@@ -171,6 +179,8 @@ def resolveIdentity (is : List Instr) : List Instr :=
 def handleProg (fields : List String) : String :=
   match fields with
   | [id, cfg, prog] =>
+    -- `tbegin` .. `tend` (the caller catches what the body raises and goes on) has no counterpart in the program model
+    if (prog.splitOn ";").any (fun t => (t.trimAscii.toString == "tbegin") || (t.trimAscii.toString == "tend")) then s!"{id}|UNMODELLED" else
     match cfg? cfg, prog? prog with
     | some s0, some is => outStr id (run s0 (resolveIdentity is))
     | _, _ => s!"{id}|bad-case"
